@@ -203,7 +203,94 @@ fn vectors(ctx: &mut Ctx) {
     }
 }
 
+/// public convenience constructors (SVCB parameter setters, From<IpAddr>, cache-flush helpers): the values they
+/// produce must serialise to the RFC layout as well
+fn helper_case(ctx: &mut Ctx, idx: u64) {
+    use simple_dns::rdata::{RData, A, AAAA, SVCB};
+    use simple_dns::{CharacterString, Packet, ResourceRecord, CLASS};
+    let mut r = ctx.rng("helpers", idx);
+    let mut g = Gen::new(&mut r, Cfg { share: 0, ..Default::default() });
+    let owner = g.name();
+    let target = g.name();
+    let prio = g.r.int(16) as u16;
+    let mandatory: Vec<u16> = (0..g.r.usize(0, 3)).map(|_| g.r.below(7) as u16).collect();
+    let alpn: Vec<Vec<u8>> = (0..g.r.usize(0, 3)).map(|_| { let n = g.r.usize(1, 9); (0..n).map(|_| b'a' + g.r.below(26) as u8).collect() }).collect();
+    let port = g.r.int(16) as u16;
+    let v4: Vec<u32> = (0..g.r.usize(0, 3)).map(|_| g.r.int(32) as u32).collect();
+    let v6: Vec<u128> = (0..g.r.usize(0, 2)).map(|_| ((g.r.next() as u128) << 64) | g.r.next() as u128).collect();
+    let use_ = g.r.below(64);
+    let ip4 = std::net::Ipv4Addr::new(g.r.u8(), g.r.u8(), g.r.u8(), g.r.u8());
+    let ip6 = std::net::Ipv6Addr::from(((g.r.next() as u128) << 64) | g.r.next() as u128);
+    let ttl = g.ttl();
+    ctx.case(true, fnv(format!("h{:?}{:?}{}{:?}{:?}{}{:?}{:?}{}", owner, target, prio, mandatory, alpn, port, v4, v6, use_).as_bytes()));
+    // expected parameter map, written from RFC 9460 section 7 / 14.3
+    let mut want: std::collections::BTreeMap<u16, Vec<u8>> = Default::default();
+    if use_ & 1 != 0 { want.insert(0, mandatory.iter().flat_map(|k| k.to_be_bytes()).collect()); }
+    if use_ & 2 != 0 { want.insert(1, alpn.iter().flat_map(|a| { let mut v = vec![a.len() as u8]; v.extend_from_slice(a); v }).collect()); }
+    if use_ & 4 != 0 { want.insert(2, vec![]); }
+    if use_ & 8 != 0 { want.insert(3, port.to_be_bytes().to_vec()); }
+    if use_ & 16 != 0 { want.insert(4, v4.iter().flat_map(|a| a.to_be_bytes()).collect()); }
+    if use_ & 32 != 0 { want.insert(6, v6.iter().flat_map(|a| a.to_be_bytes()).collect()); }
+    let case = || json!({"family": "helpers", "idx": idx, "use_mask": use_, "port": port});
+    let res = monitor::guard(|| -> Result<(Vec<u8>, Vec<(u16, Vec<u8>)>), String> {
+        let mut s = SVCB::new(prio, bridge::lib_name(&target));
+        // setters are applied in a scrambled order: the wire order must still be ascending
+        for step in [5usize, 2, 0, 4, 1, 3] {
+            match step {
+                0 if use_ & 1 != 0 => s.set_mandatory(mandatory.iter().copied()).map_err(|e| format!("{:?}", e))?,
+                1 if use_ & 2 != 0 => s.set_alpn(alpn.iter().map(|a| CharacterString::new(a).unwrap())).map_err(|e| format!("{:?}", e))?,
+                2 if use_ & 4 != 0 => s.set_no_default_alpn(),
+                3 if use_ & 8 != 0 => s.set_port(port),
+                4 if use_ & 16 != 0 => s.set_ipv4hint(v4.iter().copied()).map_err(|e| format!("{:?}", e))?,
+                5 if use_ & 32 != 0 => s.set_ipv6hint(v6.iter().copied()).map_err(|e| format!("{:?}", e))?,
+                _ => {}
+            }
+        }
+        let seen: Vec<(u16, Vec<u8>)> = s.iter_params().map(|(k, v)| (k, v.to_vec())).collect();
+        for (k, v) in &seen {
+            if s.get_param(*k) != Some(&v[..]) {
+                return Err("get_param disagrees with iter_params".into());
+            }
+        }
+        let mut p = Packet::new_reply(7);
+        p.answers.push(ResourceRecord::new(bridge::lib_name(&owner), CLASS::IN, ttl, RData::SVCB(s)));
+        p.answers.push(ResourceRecord::new(bridge::lib_name(&owner), CLASS::IN, ttl, RData::A(A::from(ip4))).with_cache_flush(true));
+        p.answers.push(ResourceRecord::new(bridge::lib_name(&owner), CLASS::CH, ttl, RData::AAAA(AAAA::from(ip6))).to_cache_flush_record());
+        Ok((p.build_bytes_vec().map_err(|e| format!("{:?}", e))?, seen))
+    });
+    let mut m = PktM { id: 7, flags: 0x8000, ..Default::default() };
+    m.secs[0].push(RecSem { name: owner.clone(), rtype: 64, class: 1, flush: false, ttl, rd: Rd::Fields(vec![F::Int(prio as u64), F::Name(target.clone()), F::Pairs(want.iter().map(|(k, v)| (*k, v.clone())).collect())]) });
+    m.secs[0].push(RecSem { name: owner.clone(), rtype: 1, class: 1, flush: true, ttl, rd: Rd::Fields(vec![F::Int(u32::from_be_bytes(ip4.octets()) as u64)]) });
+    m.secs[0].push(RecSem { name: owner.clone(), rtype: 28, class: 3, flush: true, ttl, rd: Rd::Fields(vec![F::Bytes(ip6.octets().to_vec())]) });
+    let reference = encode(&m.to_wire(0), Plan::None).bytes;
+    match res {
+        Err(pn) => ctx.panic_violation("SVCB/A/AAAA helper constructors", &pn, case()),
+        Ok(Err(e)) => ctx.violation("write-rfc-encoding", "helper-constructor-failed", e, case()),
+        Ok(Ok((bytes, seen))) => {
+            let want_v: Vec<(u16, Vec<u8>)> = want.into_iter().collect();
+            if seen != want_v {
+                ctx.violation("write-rfc-encoding", "svcb-helper-params-differ", format!("parameters set through the helpers are {:?}, RFC 9460 formats give {:?}", seen, want_v), case());
+            } else if bytes != reference {
+                let at = bytes.iter().zip(reference.iter()).position(|(a, b)| a != b).unwrap_or(bytes.len().min(reference.len()));
+                ctx.violation("write-rfc-encoding", "helper-built-bytes-differ", format!("records built with From<IpAddr> / cache-flush helpers / SVCB setters differ from the RFC encoding at offset {}", at),
+                    json!({"family": "helpers", "idx": idx, "library": hex(&bytes), "reference": hex(&reference)}));
+            } else {
+                ctx.count("helper_constructed_records_equal");
+            }
+        }
+    }
+}
+
 pub fn run(ctx: &mut Ctx) {
+    let nh = if ctx.slow_tool { 6 } else { ctx.tier.pick(20_000u64, 1_000_000u64) };
+    for idx in 0..nh {
+        if ctx.take("helpers", idx) {
+            if ctx.stop("helpers") {
+                break;
+            }
+            helper_case(ctx, idx);
+        }
+    }
     if let Some(c) = ctx.replay_case.clone() {
         if c["family"].as_str() == Some("reject") || c["family"].as_str() == Some("vectors") {
             // regenerated below through `only`
